@@ -77,11 +77,12 @@ PROPS['C19'] = dict(
     design_ref='DESIGN.md section 4, C19',
     explanation=('Verus contracts on src/kanata/dynamic_macro.rs: add_event, record_press, record_release, tick_record_state, begin_record_macro, '
                  'stop_macro, tick_replay_state, add_release_for_all_unreleased_presses (both loops, with invariants over the ghost iteration sequence), '
-                 'ReplayEvent accessors, plus the OsCode->u16 conversion chain they call. No preconditions on '
+                 'ReplayEvent accessors, plus the OsCode->u16 conversion chain they call. The CALL SITE is under contract too (unit input: Kanata::handle_input_event, cut whole, callees as logging stubs): every physical press is handed to record_press with the physical key code and the configured maximum, every physical release to record_release, a completed recording is stored, repeats / input taps / wake-ups are not recorded. No preconditions on '
                  'stop_macro/begin_record_macro: they must be panic-free for every recorder state.'),
-    verus=[dict(unit='dynmacro', only=DYN_FUNCS)],
+    verus=[dict(unit='dynmacro', only=DYN_FUNCS), dict(unit='input')],
     kani=[],
     assumptions=[
+        'unit input (handle_input_event, cut whole): record_press / record_release / handle_repeat / Layout::event / HashMap::insert are LOGGING stubs (the first two and handle_repeat_actual are under contract in units dynmacro / repeat; Layout::event in unit waiting); record_press returns an uninterpreted function of the recorder state (the completed recording, if any); `self.layout.bm()` is a `&mut` borrow of an inner layout struct holding a ghost event log; the macro-cancel branch\'s `layout.states.retain(|s| !matches!(..))` is a logged helper (R42); log::debug! dropped (R1); OsCode -> u16 uninterpreted',
         'the hash set used by add_release_for_all_unreleased_presses and active_macros is the prelude type with the ASSUMED contract of a set (insert/remove on a mathematical set; by-value iteration yields every element exactly once in unspecified order): FxHashSet itself is not verified',
         'play_macro (recursion guard, queue prepending) is not under contract: "never replays itself recursively" is NOT decided',
         '"produces the same output as typing them again" is a whole-state-machine statement and is NOT decided',
@@ -323,7 +324,7 @@ PROPS['C02'] = dict(
     technique='contract-based: Verus (overflow/bounds/unwrap/assert sites as obligations) + Kani default checks on the harnesses of C03 C05 C06 C09 C10 C11 C17',
     design_ref='DESIGN.md section 4, C02',
     explanation='union of panic-freedom obligations of every function under contract; the quick tier leaves out only the harnesses that are thorough-tier in their own property and the full-domain key table harness',
-    verus=[dict(unit='dynmacro', only=DYN_FUNCS), dict(unit='switch'), dict(unit='oneshot'), dict(unit='waiting'), dict(unit='ticks'), dict(unit='repeat'), dict(unit='seqs'), dict(unit='layers'), dict(unit='sexpr'), dict(unit='reload'), dict(unit='holdtap'), dict(unit='chordtab'), dict(unit='overrides'), dict(unit='customth')],
+    verus=[dict(unit='dynmacro', only=DYN_FUNCS), dict(unit='switch'), dict(unit='oneshot'), dict(unit='waiting'), dict(unit='ticks'), dict(unit='repeat'), dict(unit='seqs'), dict(unit='layers'), dict(unit='sexpr'), dict(unit='reload'), dict(unit='holdtap'), dict(unit='chordtab'), dict(unit='overrides'), dict(unit='customth'), dict(unit='input')],
     kani=_c02_kani(),
     assumptions=[
         'NOT covered: Layout::{tick, do_action, event} outside the fragments named above, resolve_coord, process_sequences, ChordsV2::process_presses, every Kanata method except handle_repeat_actual and handle_scrolling (handle_move_mouse uses f64; tick_sequence_state returns a &mut from a getter), the parser',
@@ -355,10 +356,11 @@ PROPS['C14'] = dict(
                  'decrease through references and slices; seven for-loops with invariants. Unit repeat - contract on src/kanata/key_repeat.rs::handle_repeat_actual: the log of '
                  'OS writes grows by at most one (key, Repeat) entry, the key is repeat_pick(order, default_layer, key_outputs, event.code, cur_keys\', unshifted, unmodded), '
                  'which is proved active (lemma_last_active_is_active); three loops (held layers; outputs of a held layer, reversed; outputs of the base layer, reversed) with '
-                 'invariants "no earlier layer / later-listed output was active"; early returns carry the postcondition.'),
-    verus=[dict(unit='keyout'), dict(unit='repeat')],
+                 'invariants "no earlier layer / later-listed output was active"; early returns carry the postcondition. Unit input - Kanata::handle_input_event, cut whole: an OS repeat event goes to handle_repeat and nowhere else (no layout event is queued for it, nothing is recorded), so the at-most-one Repeat of handle_repeat_actual is all a repeat event can produce; handle_repeat itself (calls handle_repeat_actual, then clears cur_keys) is a stub there.'),
+    verus=[dict(unit='keyout'), dict(unit='repeat'), dict(unit='input')],
     kani=[],
     assumptions=[
+        'unit input (handle_input_event, cut whole): record_press / record_release / handle_repeat / Layout::event / HashMap::insert are LOGGING stubs (the first two and handle_repeat_actual are under contract in units dynmacro / repeat; Layout::event in unit waiting); record_press returns an uninterpreted function of the recorder state (the completed recording, if any); `self.layout.bm()` is a `&mut` borrow of an inner layout struct holding a ghost event log; the macro-cancel branch\'s `layout.states.retain(|s| !matches!(..))` is a logged helper (R42); log::debug! dropped (R1); OsCode -> u16 uninterpreted',
         'unit repeat, ASSUMED stubs: SequenceState::get_active (rewritten to a shared-reference getter, R18), KanataLayout::bm() (R18: shared reference; only default_layer, keycodes(), trans_resolution_layer_order() are read), Vec::extend (R19), Overrides::override_keys (may change the held-key list arbitrarily - C13 is not decided), write_key (appends one entry to a ghost log; its own filter is proved in C11), FxHashMap::get, <[T]>::contains = membership for structural-equality types, `v.iter().rev().copied()` = the items back to front (R17); bail! -> return Err (R13)',
         'unit repeat, PRECONDITION not established by a caller under contract: every layer number in the layout\'s resolution order, and default_layer, index key_outputs',
         'cur_keys is assumed empty on entry only implicitly: the contract speaks about cur_keys AFTER extend + override_keys, whatever it was before',
